@@ -214,6 +214,23 @@ def goodbye(ctx: Any) -> List[Ob]:
         if reached and w is not None:
             trailing.append(a)
     obs.append(ob(R, ua, trailing[0].ast if trailing else 'goodbye loop', 'the routine returns straight after the last goodbye (it suspends only before a transmission that is still to come)', not trailing, f'the wait at line {trailing[0].line} can follow the last goodbye: the instance is still open while it sleeps' if trailing else ''))
+    # ... and what it withdrew is everything that is registered when it returns: a registration that was still probing can
+    # complete while the goodbyes are being sent, so after the last suspension the registry is looked at again
+    bad_paths = []
+    n_paths = 0
+    for path in cfg_u.paths(loop_bound=2):
+        if path[-1][0] is cfg_u.raise_exit:
+            continue
+        n_paths += 1
+        kinds = []
+        for n, _lab in path:
+            if any(call_name(c) == 'generate_unregister_all_services' for c in n.calls()):
+                kinds.append('SNAPSHOT')
+            if n in aw_u:
+                kinds.append('SUSPEND')
+        if 'SUSPEND' in kinds and 'SNAPSHOT' not in kinds[len(kinds) - kinds[::-1].index('SUSPEND'):]:
+            bad_paths.append(' -> '.join(str(n.line) for n, _ in path if n.line))
+    obs.append(ob(R, ua, 'generate_unregister_all_services() ... await ... return', 'on every path the registry is examined again after the last suspension (a service registered while the goodbyes were being sent is withdrawn too)', n_paths > 0 and not bad_paths, 'path through lines ' + bad_paths[0] if bad_paths else ''))
     gcfg = cfg_of(g.node)
     un = gcfg.nodes_calling('async_unregister_all_services')
     cl = gcfg.nodes_calling('_async_close')
